@@ -449,6 +449,69 @@ fn input_shape_cases() -> (u64, Vec<Violation>) {
     (n, violations)
 }
 
+/// files with unusual but valid content: every one gets exactly one output at the mirrored path
+fn content_shape_cases() -> (u64, Vec<Violation>) {
+    let contents: &[&str] = &["", "\n", "   ", "\t\n\n", "-- only a comment", "-- only a comment\n", "--[[ long\ncomment ]]\n", "return", "return\n", ";", "do end", "\u{feff}", "\u{feff}-- c\n", "#!/usr/bin/lua\n", "local unused = 1", "type T = number", "export type T = number\n"];
+    let mut n = 0;
+    let mut violations = Vec::new();
+    for config in ["{rules: []}", "{rules: ['remove_comments', 'remove_spaces', 'remove_unused_variable', 'remove_types', 'remove_empty_do']}", "{rules: [], generator: 'dense'}", "{rules: ['remove_comments'], generator: 'readable'}"] {
+        for content in contents {
+            for io in [Io::InPlace, Io::ExistingDir, Io::NewDir] {
+                for with_sibling in [false, true] {
+                    n += 1;
+                    let r = Resources::from_memory();
+                    let _ = r.write("src/d/odd.lua", content);
+                    let _ = r.write("src/odd.luau", content);
+                    if with_sibling {
+                        let _ = r.write("src/d/ok.lua", "return 1\n");
+                    }
+                    let _ = r.write(".darklua.json", config);
+                    if io == Io::ExistingDir {
+                        let _ = r.write("out/keep.me", "foreign");
+                    }
+                    let mut options = Options::new("src").with_configuration_at(".darklua.json");
+                    if io != Io::InPlace {
+                        options = options.with_output("out");
+                    }
+                    let res = r.clone();
+                    let describe = format!("content {:?}, configuration {}, {:?}, sibling file: {}", content, config, io, with_sibling);
+                    match guarded(move || darklua_core::process(&res, options)) {
+                        Err(p) => violations.push(Violation { finding: None, summary: format!("PANIC in process: {}\n--- {}", p, describe), replay: json!({"kind": "content shape", "content": content, "config": config}) }),
+                        Ok(Err(e)) => violations.push(Violation { finding: None, summary: format!("fatal error {}\n--- {}", e, describe), replay: json!({"kind": "content shape", "content": content, "config": config}) }),
+                        Ok(Ok(tree)) => {
+                            let errors: Vec<String> = tree.collect_errors().iter().map(|e| e.to_string()).collect();
+                            let prefix = if io == Io::InPlace { "src" } else { "out" };
+                            let mut problems = Vec::new();
+                            if !errors.is_empty() {
+                                // a content darklua rejects must be rejected for both copies, and nothing written for them
+                                if errors.len() != 2 {
+                                    problems.push(format!("{} errors for two files with the same content: {:?}", errors.len(), errors));
+                                }
+                            } else {
+                                for f in ["d/odd.lua", "odd.luau"] {
+                                    if r.get(format!("{}/{}", prefix, f)).is_err() {
+                                        problems.push(format!("no output was written for {} and no error reported", f));
+                                    }
+                                }
+                                if r.get(format!("{}/d/odd.lua", prefix)).ok() != r.get(format!("{}/odd.luau", prefix)).ok() {
+                                    problems.push("two files with the same content got different outputs".to_owned());
+                                }
+                            }
+                            if with_sibling && r.get(format!("{}/d/ok.lua", prefix)).is_err() {
+                                problems.push("the ordinary sibling file was not written".to_owned());
+                            }
+                            if !problems.is_empty() {
+                                violations.push(Violation { finding: None, summary: format!("{}\n--- {}", problems.join("\n"), describe), replay: json!({"kind": "content shape", "content": content, "config": config, "io": format!("{:?}", io)}) });
+                            }
+                        }
+                    }
+                }
+            }
+        }
+    }
+    (n, violations)
+}
+
 const RICH_CONFIG: &str = "{rules: ['remove_comments', 'remove_spaces', 'remove_assertions', 'remove_debug_profiling', 'remove_continue', 'remove_compound_assignment', 'remove_if_expression', \
     'remove_interpolated_string', 'remove_method_call', 'remove_types', 'remove_floor_division', 'convert_luau_number', 'compute_expression', 'remove_unused_variable', 'group_local_assignment', \
     {rule: 'inject_global_value', identifier: 'G', value: 1}, {rule: 'append_text_comment', text: 'tail', location: 'end'}, 'convert_index_to_field', 'remove_nil_declaration', \
@@ -684,6 +747,10 @@ pub fn run_check(tier: Tier) -> Report {
     report.evaluations += n;
     report.violations.extend(v);
     report.set("directory_spelling_cases", n);
+    let (n, v) = content_shape_cases();
+    report.evaluations += n;
+    report.violations.extend(v);
+    report.set("content_shape_cases", n);
     let (n, v) = isolation_cases();
     report.evaluations += n;
     report.distinct_nontrivial += n;
